@@ -30,7 +30,7 @@ REQUIRED_MONITORS = ('cli_vs_library_bytes', 'discovery_vs_truth', 'discovery_ha
 REQUIRED_CLASSES = ('mol:explicit-only', 'mol:explicit+auto', 'auto-only', 'exclude', 'exclude:several', 'output:given', 'output:default',
                     'input:other-directory', 'distractor:absent-species-topology', 'distractor:foreign-coordinates',
                     'distractor:unknown-extension', 'distractor:system-file-in-list', 'distractor:previous-output', 'distractor:impostor-topology',
-                    'species-without-end-files', 'explicit-also-in-list', 'explicit-also-in-list:every-file-spelled-differently', 'mol:end-topology-named-differently', 'candidates:files-listed-twice', 'paths:explicit-and-listed-spelled-differently', 'scale:non-default', 'output-path:absolute',
+                    'species-without-end-files', 'explicit-also-in-list', 'explicit-also-in-list:every-file-spelled-differently', 'order:small-species-before-a-searched-one', 'mol:end-topology-named-differently', 'candidates:files-listed-twice', 'paths:explicit-and-listed-spelled-differently', 'scale:non-default', 'output-path:absolute',
                     'output-path:relative-plain', 'output-path:relative-subdir')
 RULE = ('generated directories of 2-4 species with distractor files (topologies of absent species, foreign coordinate files, '
         'unknown extensions, the system file and a previous output in the candidate list, a species without end files) x '
@@ -263,7 +263,12 @@ def run_world(ctx, case):
     many = (i % 6 in (1, 2))            # four complete species: room for several exclusions
     if many:
         nsp = 4
-    w = world.make_world(rng, root, nspecies=nsp, ninst=(2, 6), small_prob=0.2,
+    # every other explicit-only case: the species handed over first has one or two beads (its alignment does not search)
+    # and is followed by species that do
+    small_first = (i % 3 == 0 and (i // 3) % 2 == 1)
+    if small_first:
+        nsp = max(nsp, 3)
+    w = world.make_world(rng, root, nspecies=nsp, ninst=(2, 6), small_prob=0.2, force_small=('SPA',) if small_first else (),
                          end_for=['SPA', 'SPB', 'SPC', 'SPD'] if many else
                          (None if i % 3 else ['SPA', 'SPB', 'SPC', 'SPD'][:nsp][:max(1, nsp - 1)]))
     names = list(w['files'])
@@ -386,6 +391,10 @@ def run_world(ctx, case):
     argv = ['gaddlemaps', init_arg]
     for n in explicit:
         argv += ['--mol'] + triple(n)
+    handed = explicit + [n for n in complete if n not in explicit]
+    nb = [len(w['species'][n]['atoms']) for n in handed]
+    if any(a <= 2 and any(b >= 3 for b in nb[k + 1:]) for k, a in enumerate(nb[:len(explicit)])):
+        ctx.hit('order:small-species-before-a-searched-one')
     if scale != 0.5 or rng.random() < 0.5:
         argv += ['--scale', str(scale)]
     if out_mode == 'given':
